@@ -26,6 +26,8 @@ TRUSTED_BASE = BASE_TRUSTED + [
     'specification coq/Spec/S_C09.v (spheres, plane-wave offset, optical path to the sphere, RMS, mean absolute deviation)',
     'implementation-level oracle tools/c09lib.py (paths recomputed from recorded intersection points, exit pupil from '
     'matrix optics for plane/conic centred lenses and from optiland.paraxial (C04) otherwise, both sphere intersections accepted)',
+    'documented Gaussian-quadrature samples / weights of the OPD-difference operand: literal table in tools/c09lib.py (GQ_RADII, GQ_WEIGHTS, '
+    '6 w on the single axial arm, 2 w on each of the three off-axis arms), tied to Gauss-Legendre nodes / weights to 5e-5 on every run',
     'modelled, not verified: material indices and vignetting-factor interpolation are inputs of the model (C18, C03)',
     'the model traces every ray alone; through iteratively intersected surfaces the batch-wide Newton stopping rule of the '
     'implementation differs by at most the stopping tolerance (factory default 1e-6 mm): comparisons on such lenses allow '
